@@ -21,6 +21,8 @@ PROFILES = {
     "corr": dict(features={"arith", "corr", "mem", "storage"}, nstmts=(1, 3), depth=1),
     "stackops": dict(features={"arith", "stackops", "mem", "env"}, nstmts=(1, 3), depth=0),
     "hashcond": dict(features={"arith", "sha3", "hashcond", "branch", "mem", "storage"}, nstmts=(1, 3), depth=2),
+    # every account's storage is symbolic (svm.enableSymbolicStorage): scalar slots and one-level mappings only
+    "symstore": dict(features={"arith", "storage", "sha3", "branch", "mem", "call", "noarrayslot"}, nstmts=(2, 4), depth=2, branchy=0.5, symbolic_storage=True),
     "symloop": dict(features={"arith", "loop", "symloop", "storage", "mem"}, nstmts=(1, 2), depth=1),
     "symjump": dict(features={"arith", "symjump", "mem"}, nstmts=(1, 2), depth=0),
     "callfail": dict(features={"arith", "callfail", "call", "storage"}, nstmts=(1, 3), depth=1, branchy=0.8),
@@ -44,13 +46,13 @@ def make(rng, profile, options=None, nargs=2):
         accounts[a] = {"code": c}
     calldata = [("c", b"\x12\x34\x56\x78")] + [("s", f"arg{i}", 32) for i in range(nargs)]
     return {"profile": profile, "accounts": accounts, "this": THIS, "calldata": calldata,
-            "static": False, "options": dict(options or {})}
+            "static": False, "options": dict(options or {}), "symbolic_storage": bool(prof.get("symbolic_storage"))}
 
 
 def describe(scn):
     return {"profile": scn["profile"], "code": scn["accounts"][scn["this"]]["code"].hex(),
             "callees": {hex(a): acc["code"].hex() for a, acc in scn["accounts"].items() if a != scn["this"]},
-            "options": scn["options"], "static": scn.get("static", False)}
+            "options": scn["options"], "static": scn.get("static", False), "symbolic_storage": bool(scn.get("symbolic_storage"))}
 
 
 def from_description(d):
@@ -60,7 +62,7 @@ def from_description(d):
     nargs = d.get("nargs", 2)
     return {"profile": d.get("profile", "replay"), "accounts": accounts, "this": THIS,
             "calldata": [("c", b"\x12\x34\x56\x78")] + [("s", f"arg{i}", 32) for i in range(nargs)],
-            "static": d.get("static", False), "options": d.get("options", {})}
+            "static": d.get("static", False), "options": d.get("options", {}), "symbolic_storage": bool(d.get("symbolic_storage"))}
 
 
 BOOL_OPS = {0x10, 0x11, 0x12, 0x13, 0x14, 0x15}
